@@ -66,7 +66,12 @@ META = {
         "Pyoda.GenAgree.C14W.gen_Writer_writeOffset_eq", "Pyoda.GenAgree.C14W.gen_Writer_writeString_eq",
         "Pyoda.GenAgree.C14W.gen_checkNotNullDict_eq", "Pyoda.GenAgree.C14W.gen_Writer_writeDictionary_loop1_eq",
         "Pyoda.GenAgree.C14W.gen_Writer_writeDictionary_eq", "Pyoda.GenAgree.C14W.gen_Writer_writeTransitionNone_eq",
-        "Pyoda.GenAgree.C14W.gen_Writer_writeTransitionSome_eq",
+        "Pyoda.GenAgree.C14W.gen_Writer_writeTransitionSome_eq", "Pyoda.GenAgree.C14W.gen_YearOffset_mode_eq",
+        "Pyoda.GenAgree.C14W.gen_YearOffset_advanceDayOfWeek_eq", "Pyoda.GenAgree.C14W.gen_YearOffset_timeOfDay_eq",
+        "Pyoda.GenAgree.C14W.gen_Recurrence_name_eq", "Pyoda.GenAgree.C14W.gen_Recurrence_savings_eq",
+        "Pyoda.GenAgree.C14W.gen_Recurrence_yearOffset_eq", "Pyoda.GenAgree.C14W.gen_Recurrence_fromYear_eq",
+        "Pyoda.GenAgree.C14W.gen_Recurrence_toYear_eq", "Pyoda.GenAgree.C14W.gen_YearOffset_write_eq",
+        "Pyoda.GenAgree.C14W.gen_Recurrence_write_eq", "Pyoda.GenAgree.C14W.gen_AltMap_write_eq",
     ],
     "trusted_base": [
         "translator tie shared with C14 (tools/py2lean.py; GenAgreeC14 / C14S / C14W): the reader (every read_* method, incl. the short-read loop of read_string under any stream that keeps the read(n) contract), the writer, and one next() of the field-framing generator _TzdbStreamField._read_fields are re-translated from the source on every run and proved equal to the codec model the C20 theorems are about (readFields is proved to be the iteration of that step and the handlers: gen_readFields_step). The zone readers create_zone dispatches to — _FixedDateTimeZone.read, _PrecalculatedDateTimeZone._read with its period loop and _StandardDaylightAlternatingMap._read — are tied too (gen_FixedZone_read_eq, gen_PrecalcZone_read_eq, gen_AltMap_read_eq: the model's readFixed / readPrecalculated / readAlternatingMap on the bytes at hand). Outside the tie: the _Builder field handlers, _from_stream / create_zone themselves with their except clauses and the `with` over a field stream (correspondence only)",
